@@ -277,10 +277,27 @@ func (p *Pool) Put(x interface{}) {
 	p.items = append(p.items, x)
 }
 
+// TimerReset replaces (*time.Timer).Reset: same effect, and the new expiry is
+// registered as an instant for targeted stalls.
+func TimerReset(t *time.Timer, d time.Duration) bool {
+	if cur != nil && d > 0 && d < time.Hour {
+		AddInstant(time.Now().Add(d))
+	}
+	return t.Reset(d)
+}
+
 // AfterFunc replaces time.AfterFunc: the callback runs as a managed goroutine,
 // so "the timer has fired but its callback has not run yet" is a state the
 // scheduler can hold for as long as it likes.
 func AfterFunc(d time.Duration, f func()) *time.Timer {
+	if cur != nil && d > 0 && d < time.Hour {
+		AddInstant(time.Now().Add(d))
+	}
+	return AfterFuncQuiet(d, f)
+}
+
+// AfterFuncQuiet is AfterFunc without registering the expiry as an instant.
+func AfterFuncQuiet(d time.Duration, f func()) *time.Timer {
 	s := cur
 	if s == nil {
 		return time.AfterFunc(d, f)
